@@ -40,7 +40,7 @@ def gen_cases(tier, seed):
     n = 30 if tier == "quick" else 320
     cases = []
     for i in range(n):
-        cls = ["small", "small", "large", "spatial", "small", "large"][i % 6]
+        cls = ["small", "small", "large", "spatial", "small", "large", "spatial_large", "small", "spatial"][i % 9]
         if cls == "small":
             wk = rnd.choice(["mm1", "mm1", "mv1", "chain2", "mvchain2"])
             d = gs.gen_spec(rnd, wk, levels=2 if wk == "chain2" else rnd.choice([2, 2, 3]), size_class=rnd.choice(["inf", "generous", "tight", "tight"]))
@@ -57,14 +57,21 @@ def gen_cases(tier, seed):
                 d["arch"]["mems"][1]["size"] = rnd.randint(max(8, sizes[0] // 8), max(16, sizes[-1])) * d["workload"]["bits"]
         else:
             wk = "mm1"
-            d = gs.gen_spec(rnd, wk, levels=2, size_class=rnd.choice(["inf", "tight"]))
+            big = cls == "spatial_large"
+            # spatial_large: a three-level hierarchy with the fanout between the two buffers and bounds large enough that
+            # templates reach >= 1000 partially enumerated assignments WITH a lower-bound product constraint pending
+            d = gs.gen_spec(rnd, wk, levels=3 if big else 2, size_class=rnd.choice(["inf", "tight"]) if not big else "inf",
+                            costs="tradeoff" if big else None)
             for rv in d["workload"]["ranks"]:
-                d["workload"]["ranks"][rv] = rnd.choice([8, 12, 16, 24])
+                d["workload"]["ranks"][rv] = rnd.choice([8, 12, 16, 24]) if not big else rnd.choice([16, 24, 32])
             rvs = sorted(d["workload"]["ranks"])
-            sp = {"name": "X", "fanout": rnd.choice([4, 6, 8])}
-            kind = rnd.choice(["prod_ge", "ge", "le", "prod_le", "only"])
+            sp = {"name": "X", "fanout": rnd.choice([4, 6, 8]) if not big else 4}
+            kind = rnd.choice(["prod_ge", "ge", "le", "prod_le", "only"]) if not big else "prod_ge3"
             a_, b_ = rnd.sample(rvs, 2)
-            if kind == "prod_ge":
+            if kind == "prod_ge3":
+                sp["loop_bounds"] = [{"expression": " | ".join(rvs if rnd.random() < 0.6 else [a_, b_]), "operator": rnd.choice(["product>=", "product>=", "product>"]),
+                                      "value": rnd.choice([4, 4, 2])}]
+            elif kind == "prod_ge":
                 sp["loop_bounds"] = [{"expression": f"{a_} | {b_}", "operator": "product>=", "value": rnd.choice([2, 4])}]
             elif kind == "ge":
                 sp["loop_bounds"] = [{"expression": a_, "operator": ">=", "value": 2}]
@@ -77,12 +84,16 @@ def gen_cases(tier, seed):
             sp2 = None
             if rnd.random() < 0.5:
                 sp2 = {"name": "Y", "fanout": rnd.choice([2, 4])}
-            d["arch"]["mems"].append({"kind": "Container", "name": "PE", "spatial": [sp] + ([sp2] if sp2 else [])})
+            if big:
+                d["arch"]["mems"].insert(2, {"kind": "Container", "name": "PE", "spatial": [sp]})
+            else:
+                d["arch"]["mems"].append({"kind": "Container", "name": "PE", "spatial": [sp] + ([sp2] if sp2 else [])})
             if d["arch"]["size_class"] == "tight":
                 sizes = sorted(gs.tensor_sizes(d["workload"]).values())
                 d["arch"]["mems"][1]["size"] = rnd.randint(max(8, sizes[0] // 4), max(16, sizes[-1])) * d["workload"]["bits"]
         cases.append({"class": cls + "/" + wk, "desc": d,
-                      "metrics": rnd.choice(["ENERGY", "LATENCY", "ENERGY_DELAY_PRODUCT", "ENERGY|LATENCY"]), "seed": rnd.randrange(2**31)})
+                      "metrics": rnd.choice(["ENERGY", "LATENCY", "ENERGY_DELAY_PRODUCT", "ENERGY|LATENCY"]) if cls != "spatial_large" else "ENERGY",
+                      "seed": rnd.randrange(2**31)})
     return cases
 
 
